@@ -113,6 +113,179 @@ func rsFromString(chars string) runeSet {
 type runePredEval struct {
 	pk    *packages.Package
 	depth int
+	env   map[types.Object]runeBinding // locals defined once from the rune (`c := byte(r) | 0x20`)
+}
+
+// runeTerm: an integer expression in the rune variable — the variable itself
+// put through a chain of exact transformers (narrowing conversion, bit
+// operation or arithmetic with a constant). nil chain = the variable.
+type runeTerm struct {
+	chain []func(int64) int64
+}
+
+type runeBinding struct {
+	term *runeTerm
+	set  runeSet
+	bool bool
+}
+
+func (t *runeTerm) apply(v int64) int64 {
+	for _, f := range t.chain {
+		v = f(v)
+	}
+	return v
+}
+
+func (t *runeTerm) then(f func(int64) int64) *runeTerm {
+	n := &runeTerm{chain: append(append([]func(int64) int64(nil), t.chain...), f)}
+	return n
+}
+
+// wrapTo: the value-changing part of a conversion to (or arithmetic in) a basic integer type.
+func wrapTo(t types.Type) (func(int64) int64, bool) {
+	b, ok := t.Underlying().(*types.Basic)
+	if !ok {
+		return nil, false
+	}
+	switch b.Kind() {
+	case types.Uint8:
+		return func(v int64) int64 { return int64(uint8(v)) }, true
+	case types.Int8:
+		return func(v int64) int64 { return int64(int8(v)) }, true
+	case types.Uint16:
+		return func(v int64) int64 { return int64(uint16(v)) }, true
+	case types.Int16:
+		return func(v int64) int64 { return int64(int16(v)) }, true
+	case types.Uint32:
+		return func(v int64) int64 { return int64(uint32(v)) }, true
+	case types.Int32, types.UntypedRune:
+		return func(v int64) int64 { return int64(int32(v)) }, true
+	case types.Int, types.Int64, types.UntypedInt:
+		return func(v int64) int64 { return v }, true
+	case types.Uint, types.Uint64, types.Uintptr:
+		// runes are non-negative and the transformers below keep values far from 2^63
+		return func(v int64) int64 { return v }, true
+	}
+	return nil, false
+}
+
+// termOf: e as a term in the rune variable, when it has such a form.
+func (ev *runePredEval) termOf(e ast.Expr, arg types.Object) (*runeTerm, bool) {
+	info := ev.pk.TypesInfo
+	e = ast.Unparen(e)
+	switch x := e.(type) {
+	case *ast.Ident:
+		obj := info.Uses[x]
+		if obj == arg {
+			return &runeTerm{}, true
+		}
+		if b, ok := ev.env[obj]; ok && b.term != nil {
+			return b.term, true
+		}
+	case *ast.CallExpr:
+		if len(x.Args) == 1 {
+			if tv, ok := info.Types[x.Fun]; ok && tv.IsType() {
+				t, ok := ev.termOf(x.Args[0], arg)
+				if !ok {
+					return nil, false
+				}
+				w, ok := wrapTo(tv.Type)
+				if !ok {
+					return nil, false
+				}
+				return t.then(w), true
+			}
+		}
+	case *ast.BinaryExpr:
+		var t *runeTerm
+		var k int64
+		var okT, okK, termLeft bool
+		if t, okT = ev.termOf(x.X, arg); okT {
+			k, okK = ev.constRune(x.Y)
+			termLeft = true
+		} else if t, okT = ev.termOf(x.Y, arg); okT {
+			k, okK = ev.constRune(x.X)
+		}
+		if !okT || !okK {
+			return nil, false
+		}
+		w, ok := wrapTo(info.TypeOf(e))
+		if !ok {
+			return nil, false
+		}
+		var f func(int64) int64
+		switch x.Op {
+		case token.OR:
+			f = func(v int64) int64 { return v | k }
+		case token.AND:
+			f = func(v int64) int64 { return v & k }
+		case token.XOR:
+			f = func(v int64) int64 { return v ^ k }
+		case token.ADD:
+			f = func(v int64) int64 { return v + k }
+		case token.AND_NOT:
+			if termLeft {
+				f = func(v int64) int64 { return v &^ k }
+			}
+		case token.SUB:
+			if termLeft {
+				f = func(v int64) int64 { return v - k }
+			} else {
+				f = func(v int64) int64 { return k - v }
+			}
+		case token.SHR:
+			if termLeft && k >= 0 && k < 63 {
+				f = func(v int64) int64 { return v >> uint(k) }
+			}
+		case token.SHL:
+			if termLeft && k >= 0 && k < 20 {
+				f = func(v int64) int64 { return v << uint(k) }
+			}
+		}
+		if f == nil {
+			return nil, false
+		}
+		return t.then(f).then(w), true
+	}
+	return nil, false
+}
+
+// preimage: the runes whose transformed value satisfies keep. The rune domain
+// is finite, so the preimage of a set under an exact transformer chain is
+// computed by pushing every rune through the chain — set algebra on the
+// predicate's model, nothing of yq is executed.
+func (t *runeTerm) preimage(keep func(int64) bool) runeSet {
+	var out runeSet
+	inRun := false
+	var lo rune
+	for r := rune(0); r <= maxRune; r++ {
+		if keep(t.apply(int64(r))) {
+			if !inRun {
+				inRun, lo = true, r
+			}
+		} else if inRun {
+			out = append(out, runeRange{lo, r - 1})
+			inRun = false
+		}
+	}
+	if inRun {
+		out = append(out, runeRange{lo, maxRune})
+	}
+	return out
+}
+
+func flipCmp(op token.Token) token.Token {
+	switch op {
+	case token.LSS:
+		return token.GTR
+	case token.GTR:
+		return token.LSS
+	case token.LEQ:
+		return token.GEQ
+	case token.GEQ:
+		return token.LEQ
+	}
+	return op
 }
 
 // eval returns the set of runes for which expr is true, given that `arg` is
@@ -127,6 +300,10 @@ func (ev *runePredEval) eval(e ast.Expr, arg types.Object) (runeSet, bool) {
 		return rsNone(), true
 	}
 	switch x := e.(type) {
+	case *ast.Ident:
+		if b, ok := ev.env[info.Uses[x]]; ok && b.bool {
+			return b.set, true
+		}
 	case *ast.UnaryExpr:
 		if x.Op == token.NOT {
 			s, ok := ev.eval(x.X, arg)
@@ -146,23 +323,54 @@ func (ev *runePredEval) eval(e ast.Expr, arg types.Object) (runeSet, bool) {
 			op := x.Op
 			var c int64
 			var okc bool
-			if ev.isArg(x.X, arg) {
+			var t *runeTerm
+			var okt bool
+			if t, okt = ev.termOf(x.X, arg); okt {
 				c, okc = ev.constRune(x.Y)
-			} else if ev.isArg(x.Y, arg) {
+			} else if t, okt = ev.termOf(x.Y, arg); okt {
 				c, okc = ev.constRune(x.X)
+				op = flipCmp(op)
+			}
+			if !okc || !okt {
+				return nil, false
+			}
+			if len(t.chain) > 0 {
+				var keep func(int64) bool
 				switch op {
 				case token.LSS:
-					op = token.GTR
-				case token.GTR:
-					op = token.LSS
+					keep = func(v int64) bool { return v < c }
 				case token.LEQ:
-					op = token.GEQ
+					keep = func(v int64) bool { return v <= c }
+				case token.GTR:
+					keep = func(v int64) bool { return v > c }
 				case token.GEQ:
-					op = token.LEQ
+					keep = func(v int64) bool { return v >= c }
+				case token.EQL:
+					keep = func(v int64) bool { return v == c }
+				case token.NEQ:
+					keep = func(v int64) bool { return v != c }
 				}
+				return t.preimage(keep), true
 			}
-			if !okc {
-				return nil, false
+			if c < 0 || c > maxRune {
+				// out-of-domain constant: decide against the whole domain
+				switch op {
+				case token.LSS, token.LEQ, token.EQL:
+					if c < 0 {
+						return rsNone(), true
+					}
+					if op == token.EQL {
+						return rsNone(), true
+					}
+					return rsAll(), true
+				case token.GTR, token.GEQ:
+					if c < 0 {
+						return rsAll(), true
+					}
+					return rsNone(), true
+				case token.NEQ:
+					return rsAll(), true
+				}
 			}
 			r := rune(c)
 			switch op {
@@ -196,18 +404,23 @@ func (ev *runePredEval) eval(e ast.Expr, arg types.Object) (runeSet, bool) {
 	return nil, false
 }
 
+// isArg: e is the rune variable itself, possibly through value-preserving
+// conversions (rune, int32, int, int64, uint32 …: every rune fits).
 func (ev *runePredEval) isArg(e ast.Expr, arg types.Object) bool {
-	e = ast.Unparen(e)
-	if id, ok := e.(*ast.Ident); ok {
-		return ev.pk.TypesInfo.Uses[id] == arg
+	t, ok := ev.termOf(e, arg)
+	if !ok {
+		return false
 	}
-	// rune(x) / int32(x) conversions of the argument
-	if call, ok := e.(*ast.CallExpr); ok && len(call.Args) == 1 {
-		if tv, ok := ev.pk.TypesInfo.Types[call.Fun]; ok && tv.IsType() {
-			return ev.isArg(call.Args[0], arg)
+	if len(t.chain) == 0 {
+		return true
+	}
+	// a chain that is the identity on the whole domain
+	for r := rune(0); r <= maxRune; r++ {
+		if t.apply(int64(r)) != int64(r) {
+			return false
 		}
 	}
-	return false
+	return true
 }
 
 func (ev *runePredEval) constRune(e ast.Expr) (int64, bool) {
@@ -218,15 +431,176 @@ func (ev *runePredEval) constRune(e ast.Expr) (int64, bool) {
 	return constant.Int64Val(constant.ToInt(tv.Value))
 }
 
-// evalPredFunc: `func p(r rune) bool { return <expr> }` (single return).
+// evalPredFunc: `func p(r rune) bool { … }` whose body is a sequence of
+// single definitions from the rune, `if cond { return … }` steps, a switch on
+// a term with constant cases, and a final return.
 func (ev *runePredEval) evalPredFunc(fd *ast.FuncDecl) (runeSet, bool) {
-	if fd.Type.Params.NumFields() != 1 || fd.Body == nil || len(fd.Body.List) != 1 {
-		return nil, false
-	}
-	ret, ok := fd.Body.List[0].(*ast.ReturnStmt)
-	if !ok || len(ret.Results) != 1 || len(fd.Type.Params.List[0].Names) != 1 {
+	if fd.Type.Params.NumFields() != 1 || fd.Body == nil || len(fd.Type.Params.List[0].Names) != 1 {
 		return nil, false
 	}
 	arg := ev.pk.TypesInfo.Defs[fd.Type.Params.List[0].Names[0]]
-	return ev.eval(ret.Results[0], arg)
+	saved := ev.env
+	ev.env = map[types.Object]runeBinding{}
+	defer func() { ev.env = saved }()
+	return ev.evalStmts(fd.Body.List, arg)
+}
+
+func (ev *runePredEval) evalStmts(list []ast.Stmt, arg types.Object) (runeSet, bool) {
+	info := ev.pk.TypesInfo
+	if len(list) == 0 {
+		return nil, false
+	}
+	switch s := list[0].(type) {
+	case *ast.ReturnStmt:
+		if len(s.Results) != 1 {
+			return nil, false
+		}
+		return ev.eval(s.Results[0], arg)
+	case *ast.AssignStmt:
+		if s.Tok != token.DEFINE || len(s.Lhs) != 1 || len(s.Rhs) != 1 {
+			return nil, false
+		}
+		id, ok := s.Lhs[0].(*ast.Ident)
+		if !ok {
+			return nil, false
+		}
+		obj := info.Defs[id]
+		if obj == nil || assignedAgain(info, list[1:], obj) {
+			return nil, false
+		}
+		if t, ok := ev.termOf(s.Rhs[0], arg); ok {
+			ev.env[obj] = runeBinding{term: t}
+		} else if set, ok := ev.eval(s.Rhs[0], arg); ok {
+			ev.env[obj] = runeBinding{set: set, bool: true}
+		} else {
+			return nil, false
+		}
+		return ev.evalStmts(list[1:], arg)
+	case *ast.IfStmt:
+		if s.Init != nil {
+			return nil, false
+		}
+		cond, ok := ev.eval(s.Cond, arg)
+		if !ok {
+			return nil, false
+		}
+		thenSet, ok := ev.evalStmts(s.Body.List, arg)
+		if !ok {
+			return nil, false
+		}
+		var elseList []ast.Stmt
+		switch e := s.Else.(type) {
+		case nil:
+			elseList = list[1:]
+		case *ast.BlockStmt:
+			elseList = e.List
+		case *ast.IfStmt:
+			elseList = []ast.Stmt{e}
+			// an else-if chain that falls through continues with the rest
+			elseList = append(elseList, list[1:]...)
+		default:
+			return nil, false
+		}
+		elseSet, ok := ev.evalStmts(elseList, arg)
+		if !ok {
+			return nil, false
+		}
+		return cond.intersect(thenSet).union(cond.complement().intersect(elseSet)), true
+	case *ast.SwitchStmt:
+		if s.Init != nil {
+			return nil, false
+		}
+		var tag *runeTerm
+		if s.Tag != nil {
+			t, ok := ev.termOf(s.Tag, arg)
+			if !ok {
+				return nil, false
+			}
+			tag = t
+		}
+		taken := rsNone()
+		result := rsNone()
+		var deflt []ast.Stmt
+		hasDefault := false
+		for _, cl := range s.Body.List {
+			cc := cl.(*ast.CaseClause)
+			if cc.List == nil {
+				hasDefault, deflt = true, cc.Body
+				continue
+			}
+			clause := rsNone()
+			for _, ce := range cc.List {
+				if tag != nil {
+					k, ok := ev.constRune(ce)
+					if !ok {
+						return nil, false
+					}
+					clause = clause.union(tag.preimage(func(v int64) bool { return v == k }))
+				} else {
+					cs, ok := ev.eval(ce, arg)
+					if !ok {
+						return nil, false
+					}
+					clause = clause.union(cs)
+				}
+			}
+			clause = clause.minus(taken)
+			taken = taken.union(clause)
+			if len(cc.Body) == 0 {
+				// empty clause: falls out of the switch
+				rest, ok := ev.evalStmts(list[1:], arg)
+				if !ok {
+					return nil, false
+				}
+				result = result.union(clause.intersect(rest))
+				continue
+			}
+			body, ok := ev.evalStmts(cc.Body, arg)
+			if !ok {
+				return nil, false
+			}
+			result = result.union(clause.intersect(body))
+		}
+		var rest runeSet
+		var ok bool
+		if hasDefault && len(deflt) > 0 {
+			rest, ok = ev.evalStmts(deflt, arg)
+		} else {
+			rest, ok = ev.evalStmts(list[1:], arg)
+		}
+		if !ok {
+			return nil, false
+		}
+		return result.union(taken.complement().intersect(rest)), true
+	}
+	return nil, false
+}
+
+// assignedAgain: obj is written by a later statement (then it is not a single definition).
+func assignedAgain(info *types.Info, list []ast.Stmt, obj types.Object) bool {
+	again := false
+	for _, st := range list {
+		ast.Inspect(st, func(n ast.Node) bool {
+			switch x := n.(type) {
+			case *ast.AssignStmt:
+				for _, l := range x.Lhs {
+					if id, ok := l.(*ast.Ident); ok && info.Uses[id] == obj {
+						again = true
+					}
+				}
+			case *ast.IncDecStmt:
+				if id, ok := x.X.(*ast.Ident); ok && info.Uses[id] == obj {
+					again = true
+				}
+			case *ast.UnaryExpr:
+				if x.Op == token.AND {
+					if id, ok := x.X.(*ast.Ident); ok && info.Uses[id] == obj {
+						again = true
+					}
+				}
+			}
+			return true
+		})
+	}
+	return again
 }
